@@ -3819,36 +3819,46 @@ impl BytecodeVM {
                                 Vec::new()
                             }
                         } else {
-                            let obj_borrowed = obj_ref.borrow();
+                            // The object's own enumerable string keys, then those of its
+                            // prototype chain; a key seen earlier (enumerable or not) shadows
+                            // the same key further up
                             let mut result = Vec::new();
-
-                            // For arrays, first add all array indices
-                            if let Some(elements) = obj_borrowed.array_elements() {
-                                for i in 0..elements.len() {
-                                    result.push(JsValue::String(JsString::from(i.to_string())));
+                            let mut seen: rustc_hash::FxHashSet<JsString> = rustc_hash::FxHashSet::default();
+                            let mut current = Some(obj_ref.cheap_clone());
+                            while let Some(holder) = current {
+                                let obj_borrowed = holder.borrow();
+                                if matches!(obj_borrowed.exotic, ExoticObject::Proxy(_)) {
+                                    break;
                                 }
-                            }
 
-                            // Then add own enumerable property keys (excluding indices already added)
-                            for (k, prop) in obj_borrowed.properties.iter() {
-                                // Only include enumerable properties
-                                if !prop.enumerable() {
-                                    continue;
-                                }
-                                match k {
-                                    PropertyKey::String(s) => {
-                                        result.push(JsValue::String(s.cheap_clone()));
-                                    }
-                                    PropertyKey::Index(i) => {
-                                        // Only add if not an array (arrays already handled above)
-                                        if obj_borrowed.array_elements().is_none() {
-                                            result.push(JsValue::String(JsString::from(
-                                                i.to_string(),
-                                            )));
+                                // For arrays, first add all array indices
+                                if let Some(elements) = obj_borrowed.array_elements() {
+                                    for i in 0..elements.len() {
+                                        let key = JsString::from(i.to_string());
+                                        if seen.insert(key.cheap_clone()) {
+                                            result.push(JsValue::String(key));
                                         }
                                     }
-                                    _ => {} // Skip symbols for for-in
                                 }
+
+                                // Then the other property keys (excluding indices already added)
+                                for (k, prop) in obj_borrowed.properties.iter() {
+                                    let key = match k {
+                                        PropertyKey::String(s) => s.cheap_clone(),
+                                        PropertyKey::Index(i) => {
+                                            // Arrays already handled above
+                                            if obj_borrowed.array_elements().is_some() {
+                                                continue;
+                                            }
+                                            JsString::from(i.to_string())
+                                        }
+                                        _ => continue, // Skip symbols for for-in
+                                    };
+                                    if seen.insert(key.cheap_clone()) && prop.enumerable() {
+                                        result.push(JsValue::String(key));
+                                    }
+                                }
+                                current = obj_borrowed.prototype.clone();
                             }
                             result
                         }
